@@ -130,12 +130,18 @@ type submission struct {
 }
 
 func (p *pki) newSubmission(t *kernel.Tape, id int, isPre, rich bool) *submission {
+	return p.newSubmissionVia(t, id, isPre, rich, -1)
+}
+
+// newSubmissionVia: via = 1 forces a precertificate to be issued by the precert-signing
+// certificate (if the PKI has one), 0 by the CA itself, -1 draws.
+func (p *pki) newSubmissionVia(t *kernel.Tape, id int, isPre, rich bool, via int) *submission {
 	issuer := p.inter
 	issuers := []*oracle.Cert{p.inter}
 	if p.inter != p.root {
 		issuers = append(issuers, p.root)
 	}
-	if isPre && p.pre != nil && t.Chance(1, 2) {
+	if isPre && p.pre != nil && (via == 1 || (via < 0 && t.Chance(1, 2))) {
 		issuer = p.pre
 		issuers = append([]*oracle.Cert{p.pre}, issuers...)
 	}
